@@ -240,10 +240,20 @@ Proof.
         rewrite El. lia.
 Qed.
 
-Lemma Inv_step : forall cfg st m o, Inv cfg st m ->
-  Inv cfg (step cfg st o) (mon_step cfg m o (fired cfg o)).
+(* the invariant mentions the configuration only through the connection
+   universe: a change of the listen set or of the threshold keeps it *)
+Lemma Inv_env : forall cfg st m o, Inv cfg st m -> Inv (env_step cfg o) st m.
 Proof.
-  intros cfg st m o HI. destruct o as [c oa|c|c|c oa ob|c oa d]; cbn [step mon_step fired].
+  intros cfg st m o HI. destruct o; cbn [env_step]; try exact HI;
+    destruct HI as [Hcl Hcr Hval Hnd Hwf Hcnt]; constructor;
+    first [exact Hcl|exact Hcr|exact Hval|exact Hnd|exact Hwf|exact Hcnt].
+Qed.
+
+Lemma Inv_step : forall cfg st m o, Inv cfg st m ->
+  Inv (env_step cfg o) (step cfg st o) (mon_step cfg m o (fired cfg o)).
+Proof.
+  intros cfg st m o HI. destruct o as [c oa|c|c|c oa ob|c oa d|ls|n];
+    try (apply (Inv_env cfg st m _ HI)); cbn [step mon_step fired env_step].
   - apply Inv_observe, HI.
   - apply Inv_mark, HI.
   - apply Inv_disconnect, HI.
